@@ -12,8 +12,9 @@ namespace ConcVerif.LR
 /-- Every choice of the throwing invocation is a model edge: the first application can throw before, during and
 after its write (→ roll-back), the second likewise (→ roll-forward). -/
 theorem C20_lr_throw_points (s : St) (t : Tid) (op : OpId) (l : Side) :
-    (s.pc t = .wRL op l ∨ s.pc t = .wF1 op l ∨ s.pc t = .wF1d op l → step s t .uth = some (s.setPc t (.wRb op l))) ∧
-    (s.pc t = .wW2 op l ∨ s.pc t = .wF2 op l ∨ s.pc t = .wF2d op l → step s t .uth = some (s.setPc t (.wRf op l))) := by
+    (s.pc t = .wA op l ∨ s.pc t = .wF1 op l ∨ s.pc t = .wF1d op l → step s t .uth = some (s.setPc t (.wRb op l))) ∧
+    (s.pc t = .wWait op l true true ∨ s.pc t = .wF2 op l ∨ s.pc t = .wF2d op l →
+      step s t .uth = some (s.setPc t (.wRf op l))) := by
   constructor <;> intro h <;> rcases h with h | h | h <;> simp [step, h]
 
 /-- First application throws ⇒ rolled back: when the roll-back copy is complete (the mutex still held) both copies
@@ -120,19 +121,19 @@ a reader then sees `[]` and another modify goes through -/
 example : ∃ s s', Reachable s ∧ s.pc 0 = .wExc 7 false ∧ s.mtx = none ∧ s.valL = [] ∧ s.valR = [] ∧ s.committed = [] ∧
     run s [(0, .exc (.modify 7)), (1, .call (.ls 0)), (1, .ldCL .L), (1, .inc .L 0), (1, .ldRL .L), (1, .ret (.ls 0)),
            (1, .rd .L []), (2, .call (.modify 8)), (2, .lock)] = some s' :=
-  ⟨_, _, ⟨[(0, .call (.modify 7)), (0, .lock), (0, .ldRL .L), (0, .fBegin .R), (0, .uth), (0, .cpBegin .R), (0, .cpEnd .R []),
+  ⟨_, _, ⟨false, [(0, .call (.modify 7)), (0, .lock), (0, .ldRL .L), (0, .fBegin .R), (0, .uth), (0, .cpBegin .R), (0, .cpEnd .R []),
          (0, .unlock)], rfl⟩, rfl, rfl, rfl, rfl, rfl, rfl⟩
 
 /-- second application throws, rolled forward: both copies `[7]` = committed -/
 example : ∃ s, Reachable s ∧ s.pc 0 = .wRfD 7 .L ∧ s.valL = [7] ∧ s.valR = [7] ∧ s.committed = [7] :=
-  ⟨_, ⟨[(0, .call (.modify 7)), (0, .lock), (0, .ldRL .L), (0, .fBegin .R), (0, .fEnd .R [7]), (0, .stRL .R), (0, .ldCL .L),
+  ⟨_, ⟨false, [(0, .call (.modify 7)), (0, .lock), (0, .ldRL .L), (0, .fBegin .R), (0, .fEnd .R [7]), (0, .stRL .R), (0, .ldCL .L),
          (0, .ldCnt .R 0), (0, .stCL .R), (0, .ldCnt .L 0), (0, .fBegin .L), (0, .uth), (0, .cpBegin .L), (0, .cpEnd .L [7])],
       rfl⟩, rfl, rfl, rfl, rfl⟩
 
 /-- the model rejects a roll-back that copies the wrong way (onto the side readers use) or a wrong value -/
 example : ∃ s, Reachable s ∧ s.pc 0 = .wRb 7 .L ∧ step s 0 (.cpBegin .L) = none ∧
     (∃ s1, step s 0 (.cpBegin .R) = some s1 ∧ step s1 0 (.cpEnd .R [7]) = none) :=
-  ⟨_, ⟨[(0, .call (.modify 7)), (0, .lock), (0, .ldRL .L), (0, .fBegin .R), (0, .fEnd .R [7]), (0, .uth)], rfl⟩, rfl, rfl,
+  ⟨_, ⟨false, [(0, .call (.modify 7)), (0, .lock), (0, .ldRL .L), (0, .fBegin .R), (0, .fEnd .R [7]), (0, .uth)], rfl⟩, rfl, rfl,
     ⟨_, rfl, rfl⟩⟩
 
 end ConcVerif.LR
